@@ -14,8 +14,10 @@ package main
 
 import (
 	"go/ast"
+	"go/constant"
 	"go/token"
 	"go/types"
+	"strings"
 )
 
 type pathGuard struct {
@@ -42,6 +44,14 @@ func pathGuardsTo(w *World, info *types.Info, root ast.Node, node ast.Node) ([]p
 			sw, _ := w.parent[w.parent[y]].(*ast.SwitchStmt)
 			if sw == nil || len(y.List) != 1 {
 				return nil, false
+			}
+			for _, st := range y.Body {
+				if ast.Node(st) == child {
+					break
+				}
+				if is, ok := st.(*ast.IfStmt); ok && is.Else == nil && is.Init == nil && len(is.Body.List) > 0 && isTerminating(info, is.Body.List[len(is.Body.List)-1]) {
+					guards = append(guards, pathGuard{cond: is.Cond, holds: false})
+				}
 			}
 			guards = append(guards, pathGuard{cond: y.List[0], holds: true, tag: sw.Tag})
 		case *ast.ForStmt, *ast.RangeStmt, *ast.SelectStmt, *ast.TypeSwitchStmt:
@@ -443,5 +453,137 @@ func checkFoundFlag(c *Ctx, rule string, pkgs ...string) {
 	}
 	if n == 0 {
 		c.undecided(rule, "no lookup with a found flag")
+	}
+}
+
+// c13ValueText: the text of a markup value (what select chooses its replacement by and what % is replaced with).
+// In (*Value).toString, a constant spelling true/false is returned under the matching test of BoolValue, and the
+// integer rendering of a float (Itoa(int(FloatValue))) only where FloatValue is known to equal its integer part.
+func c13ValueText(c *Ctx) {
+	w := c.W
+	mp := w.Pkg("markup")
+	info := mp.TypesInfo
+	f := w.DeclByName(mp, "Value.toString")
+	if f == nil || f.Body == nil {
+		c.undecided("C13.R13", "(*Value).toString not found")
+		return
+	}
+	c.fn(f)
+	fieldTruth := func(cond ast.Expr, field string) (bool, bool) { // (truth of the field when cond holds, is such a test)
+		neg := false
+		x := unparen(cond)
+		for {
+			if u, ok := x.(*ast.UnaryExpr); ok && u.Op == token.NOT {
+				neg = !neg
+				x = unparen(u.X)
+				continue
+			}
+			break
+		}
+		if se, ok := x.(*ast.SelectorExpr); ok && se.Sel.Name == field {
+			return !neg, true
+		}
+		return false, false
+	}
+	isIntegral := func(cond ast.Expr) (bool, bool) { // (cond holding means "equal", is such a test)
+		b, ok := unparen(cond).(*ast.BinaryExpr)
+		if !ok || (b.Op != token.EQL && b.Op != token.NEQ) {
+			return false, false
+		}
+		isField := func(e ast.Expr) bool {
+			se, ok := unparen(e).(*ast.SelectorExpr)
+			return ok && se.Sel.Name == "FloatValue"
+		}
+		isRound := func(e ast.Expr) bool { // float64(int(X.FloatValue)) or math.Trunc(X.FloatValue)
+			call, ok := unparen(e).(*ast.CallExpr)
+			if !ok || len(call.Args) != 1 {
+				return false
+			}
+			if tv, ok := info.Types[call.Fun]; ok && tv.IsType() && typeStr(tv.Type) == "float64" {
+				inner, ok := unparen(call.Args[0]).(*ast.CallExpr)
+				if ok && len(inner.Args) == 1 {
+					if tv2, ok := info.Types[inner.Fun]; ok && tv2.IsType() && isIntType(tv2.Type) {
+						return isField(inner.Args[0])
+					}
+				}
+			}
+			if callee := calleeOf(info, call); callee != nil && funcFullName(callee) == "math.Trunc" {
+				return isField(call.Args[0])
+			}
+			return false
+		}
+		if (isField(b.X) && isRound(b.Y)) || (isField(b.Y) && isRound(b.X)) {
+			return b.Op == token.EQL, true
+		}
+		return false, false
+	}
+	nBool, nInt := 0, 0
+	walkNoLit(f.Body, func(q ast.Node) bool {
+		r, ok := q.(*ast.ReturnStmt)
+		if !ok || len(r.Results) != 1 {
+			return true
+		}
+		guards, okg := pathGuardsTo(w, info, f.Body, r)
+		if tv, ok := info.Types[r.Results[0]]; ok && tv.Value != nil && tv.Value.Kind() == constant.String {
+			sp := strings.ToLower(constant.StringVal(tv.Value))
+			if sp != "true" && sp != "false" {
+				return true
+			}
+			nBool++
+			key := f.Name + "/spells " + sp
+			if !okg {
+				c.ob("C13.R13", key, w.Pos(r.Pos()), false, "the constant is returned in a loop or under a clause the rule cannot read")
+				return true
+			}
+			found, right := false, false
+			for _, g := range guards {
+				if g.tag != nil {
+					continue
+				}
+				if t, is := fieldTruth(g.cond, "BoolValue"); is {
+					found = true
+					right = (t == g.holds) == (sp == "true")
+				}
+			}
+			switch {
+			case !found:
+				c.ob("C13.R13", key, w.Pos(r.Pos()), false, "\""+sp+"\" is returned without a test of BoolValue")
+			case !right:
+				c.ob("C13.R13", key, w.Pos(r.Pos()), false, "\""+sp+"\" is the text of a boolean value that is "+map[bool]string{true: "false", false: "true"}[sp == "true"]+": select would choose the replacement of the opposite value")
+			default:
+				c.ob("C13.R13", key, w.Pos(r.Pos()), true, "returned where BoolValue is "+sp)
+			}
+			return true
+		}
+		// the integer rendering of a float
+		conv := false
+		ast.Inspect(r.Results[0], func(n ast.Node) bool {
+			if call, ok := n.(*ast.CallExpr); ok && len(call.Args) == 1 {
+				if tv, ok := info.Types[call.Fun]; ok && tv.IsType() && isIntType(tv.Type) {
+					if se, ok := unparen(call.Args[0]).(*ast.SelectorExpr); ok && se.Sel.Name == "FloatValue" {
+						conv = true
+					}
+				}
+			}
+			return true
+		})
+		if conv {
+			nInt++
+			key := f.Name + "/float-as-integer"
+			okInt := false
+			for _, g := range guards {
+				if g.tag != nil {
+					continue
+				}
+				if eq, is := isIntegral(g.cond); is && eq == g.holds {
+					okInt = true
+				}
+			}
+			c.ob("C13.R13", key, w.Pos(r.Pos()), okg && okInt, map[bool]string{true: "the float is rendered through its integer part only where it equals it", false: "the float is rendered through its integer part where it is not known to equal it: 2.5 would read 2"}[okg && okInt])
+		}
+		return true
+	})
+	if nBool < 2 {
+		c.undecided("C13.R13", "the texts of the two boolean values were not found in (*Value).toString")
 	}
 }
